@@ -405,6 +405,7 @@ fn run(case: &Case, obs: &mut Obs) -> Option<Violation> {
     for (step, op) in case.ops.iter().enumerate() {
         cx.obs.count("logical_steps");
         let before = m.clone();
+        let ps_before = ps.clone();
         if let PsOp::RoundTrip { via } = op {
             let rt: Result<PolicySet, String> = if *via % 2 == 0 {
                 ps.clone().to_json().map_err(|e| e.to_string()).and_then(|j| PolicySet::from_json_value(j).map_err(|e| e.to_string()))
@@ -527,6 +528,16 @@ fn run(case: &Case, obs: &mut Obs) -> Option<Violation> {
             // (AddObject first detaches the object through ordinary operations, which do change the model)
             if m != before && !matches!(op, PsOp::AddObject { .. }) {
                 return Some(Violation::new("harness_model", "model changed on failure", step, "unchanged", "changed"));
+            }
+            // .. and that includes what `==` and iteration over the set can see
+            if !matches!(op, PsOp::AddObject { .. }) {
+                let order = |x: &PolicySet| -> (Vec<String>, Vec<String>) { (x.policies().map(|p| AsRef::<str>::as_ref(p.id()).to_string()).collect(), x.templates().map(|t| AsRef::<str>::as_ref(t.id()).to_string()).collect()) };
+                if ps != ps_before {
+                    return Some(Violation::new("failed_op_changed_set", "set != its clone taken before the failed operation", step, "a failed operation changes nothing", format!("{:?} -> {:?}", order(&ps_before), order(&ps))));
+                }
+                if order(&ps) != order(&ps_before) {
+                    return Some(Violation::new("failed_op_changed_order", "iteration order differs after the failed operation", step, format!("{:?}", order(&ps_before)), format!("{:?}", order(&ps))));
+                }
             }
         }
         let what = if ok { "after a successful op" } else { "after a failed op (must be unchanged)" };
